@@ -300,6 +300,10 @@ def truediv(a, b):
         if z3.is_int(b):
             b = z3.ToReal(b)
         return a / b
+    if b == 0:
+        # total-function semantics of the specification language: x / 0 is an unspecified real (the executor itself
+        # never gets here: every division first records a `safe:div` obligation and assumes the divisor non-zero)
+        return z3.RealVal(str(fractions.Fraction(a))) / z3.RealVal(0)
     if isinstance(a, int) and isinstance(b, int):
         return fractions.Fraction(a, b) if a % b else a // b * 1.0
     return a / b
